@@ -413,3 +413,16 @@ func init() {
 	mutant("client-initial-window-not-applied", "client-response-shape", "conn.go", "		c.applyInitialWindow(int32(st.MaxWindowSize()))\n", "")
 	mutant("client-settings-not-kept", "client-response-shape", "conn.go", "func (c *Conn) handleSettings(st *Settings) {\n	st.CopyTo(&c.serverS)\n", "func (c *Conn) handleSettings(st *Settings) {\n")
 }
+
+func init() {
+	mutant("acquire-after-takeback", "ctx-ownership-protocol", "client.go", "	if ctx.done {\n		ctx.lck.Unlock()\n		return false\n	}\n\n	return true\n}\n\n// acquireFor", "	return true\n}\n\n// acquireFor")
+	mutant("acquirefor-any-stream", "ctx-ownership-protocol", "client.go", "	if ctx.done || ctx.conn.Load() != c || atomic.LoadUint32(&ctx.streamID) != id {", "	if ctx.done || ctx.conn.Load() != c && atomic.LoadUint32(&ctx.streamID) != id {")
+	mutant("acquirefor-other-conn", "ctx-ownership-protocol", "client.go", "	if ctx.done || ctx.conn.Load() != c || atomic.LoadUint32(&ctx.streamID) != id {", "	if ctx.done || atomic.LoadUint32(&ctx.streamID) != id {")
+	mutant("finished-never-marked", "ctx-ownership-protocol", "client.go", "	ctx.finished = true\n", "")
+	mutant("reusable-either", "ctx-ownership-protocol", "client.go", "	return stopped && ctx.finished", "	return stopped || ctx.finished")
+	mutant("timer-armed-unrecorded", "ctx-ownership-protocol", "client.go", "		ctx.armed = true\n", "")
+	mutant("retryable-conjunction", "retry-predicate", "client.go", "	return errors.Is(err, ErrConnectionClosed) ||\n		errors.Is(err, ErrNotAvailableStreams) ||", "	return errors.Is(err, ErrConnectionClosed) ||\n		errors.Is(err, ErrNotAvailableStreams) &&")
+	mutant("retryable-includes-timeout", "retry-predicate", "client.go", "		errors.Is(err, ErrNoMoreStreamIDs)\n}", "		errors.Is(err, ErrNoMoreStreamIDs) ||\n		errors.Is(err, ErrRequestCanceled)\n}")
+	mutant("roundtrip-retries-everything", "retry-predicate", "client.go", "		if err == nil || !retryable(err) {", "		if err == nil && !retryable(err) {")
+	mutant("roundtrip-flags-retry-on-processed", "retry-predicate", "client.go", "		if err == nil || !retryable(err) {\n			return false, err", "		if err == nil || !retryable(err) {\n			return err != nil, err")
+}
